@@ -75,3 +75,93 @@ invariant(c, 1, "eq", lambda it, i, known_equations, has_unkown_value, v: And(
     Implies(ExistsIdx(it, lambda j, x: And(_known(x), nzq(v, x)), upto=i), ExistsIdx(known_equations, lambda k, y: nzq(v, y))),
     # C: the flag records exactly whether an unknown value was seen
     Iff(has_unkown_value, ExistsIdx(it, lambda j, x: Not(_known(x)), upto=i))), label="collect")
+
+
+# ---- Stack.push_n_values / pop_n_values (C11: the emulated stack) -----------------------------------------------------------
+from pyvc.execbase import FIELD_TYPES     # noqa: E402
+from pyvc.dsl import IsNone, current      # noqa: E402,F811
+STACK = T.Ref("Stack")
+FIELD_TYPES[("Stack", "_values")] = T.List(SV)
+
+
+def _fa(vs, body, pattern=None):
+    """ForAll with a pattern where z3 accepts it (terms over stored / lambda arrays are not valid patterns)"""
+    if pattern is not None:
+        try:
+            return z3.ForAll(vs, body, patterns=[pattern])
+        except z3.Z3Exception:
+            pass
+    return z3.ForAll(vs, body)
+
+
+def _raw_elem(lst, j, st):
+    """address stored at lst[j] (list elements are references: sort Int)"""
+    ctx = current()
+    _, el = ctx.ex._elem_arr(st, T.Int)
+    return z3.Select(z3.Select(el, lst.ref), j)
+
+
+def _vals(self_, st=None):
+    """(length term, element-at function) of self._values in state st"""
+    ctx = current()
+    st = st or ctx.st
+    K = ctx.ex.ct.cls("Stack")
+    from pyvc.values import VRef
+    lst, st2 = ctx.ex.read_field(VRef(self_.term, K, ctx.ex), K, "_values", st)
+    ctx.st.pc.extend(st2.pc[len(st.pc):])     # typing facts of the read (a stored list exists already: its address is allocated)
+    return ctx.ex.list_len(lst, st).term, (lambda j: _raw_elem(lst, j, st)), lst
+
+
+def _is_unknown(term):
+    from pyvc.execbase import TYPEOF
+    ct = current().ex.ct
+    U = ct.cls("UnknownStackValue")
+    return z3.And(TYPEOF(term) >= ct.lo[U], TYPEOF(term) < ct.hi[U])
+
+
+c = contract(S + "Stack.pop_n_values", params={"self": STACK, "count": T.Int}, returns=T.List(SV), modifies=["F:Stack._values"],
+             tags=["C11"])
+requires(c, "count_nonneg", lambda count: count >= 0)
+
+
+def _pop_post(self, count, result, old):
+    ctx = current()
+    n0, at0, _ = _vals(self, old.st)
+    n1, at1, _ = _vals(self, ctx.st)
+    rl = ctx.ex.list_len(result, ctx.st).term
+    j = z3.Int("pj")
+    rj = _raw_elem(result, j, ctx.st)
+    c_ = count.term
+    missing = z3.If(n0 >= c_, z3.IntVal(0), c_ - n0)
+    unk = _is_unknown(rj)
+    return VBool(z3.And(
+        rl == c_,
+        # the popped values keep their order: the last `count` entries, preceded by fresh unknown values if the stack is shorter
+        _fa([j], z3.Implies(z3.And(j >= missing, j < c_), rj == at0(n0 - (c_ - j))), rj),
+        _fa([j], z3.Implies(z3.And(j >= 0, j < missing), unk), rj),
+        # what stays on the stack: the entries below the popped ones, unchanged
+        n1 == z3.If(n0 >= c_, n0 - c_, z3.IntVal(0)),
+        _fa([j], z3.Implies(z3.And(j >= 0, j < n1), at1(j) == at0(j)), at1(j))))
+
+
+ensures(c, "pops_top", lambda self, count, result, old: _pop_post(self, count, result, old),
+        note="the result holds the top `count` values in stack order (first popped last), padded at the bottom with unknown values; "
+             "the remaining stack is the untouched lower part")
+
+c = contract(S + "Stack.push_n_values", params={"self": STACK, "values": T.List(SV)}, returns=T.NoneT,
+             modifies=["L.len", "L.elem:Int"], tags=["C11"])
+
+
+def _push_post(self, values, old):
+    ctx = current()
+    n0, at0, _ = _vals(self, old.st)
+    n1, at1, _ = _vals(self, ctx.st)
+    m = old.list_len(values).term
+    j = z3.Int("qj")
+    return VBool(z3.And(n1 == n0 + m,
+                        _fa([j], z3.Implies(z3.And(j >= 0, j < n0), at1(j) == at0(j)), at1(j)),
+                        _fa([j], z3.Implies(z3.And(j >= 0, j < m), at1(n0 + j) == _raw_elem(values, j, old.st)), at1(n0 + j))))
+
+
+requires(c, "separate", lambda self, values: VBool(_vals(self)[2].ref != values.ref))
+ensures(c, "appends_in_order", lambda self, values, old: _push_post(self, values, old))
